@@ -78,7 +78,7 @@ struct World {
     }
 };
 
-enum Kind { NEW, ADD, MERGE, ASSIGN, MOVECTOR, POP, CLEAR, DESTROY, AWAIT, AWAITSELF, NEWT, TADD, TMOVE, TTOVOID, TPOP, TDESTROY, TAWAIT };
+enum Kind { NEW, ADD, ADD4, MERGE, ASSIGN, MOVECTOR, POP, CLEAR, DESTROY, AWAIT, AWAITSELF, NEWT, TADD, TMOVE, TTOVOID, TPOP, TDESTROY, TAWAIT };
 struct OpDef {
     Kind k;
     int a, b;
@@ -96,6 +96,7 @@ static void build_ops(int nv) {
     for (int i = 0; i < nv; i++) {
         g_ops.push_back({NEW, i, -1, S("new", i)});
         g_ops.push_back({ADD, i, -1, S("add", i)});
+        g_ops.push_back({ADD4, i, -1, S("add4", i)});
         g_ops.push_back({POP, i, -1, S("pop", i)});
         g_ops.push_back({CLEAR, i, -1, S("clear", i)});
         g_ops.push_back({DESTROY, i, -1, S("destroy", i)});
@@ -120,6 +121,7 @@ static bool enabled(const World &w, const OpDef &o, int maxh) {
     switch (o.k) {
         case NEW: return !w.v[o.a] && w.live() < maxh;
         case ADD: return w.v[o.a].has_value() && w.live() < maxh;
+        case ADD4: return w.v[o.a].has_value() && w.live() + 4 <= maxh;
         case MERGE:
         case ASSIGN: return w.v[o.a].has_value() && w.v[o.b].has_value();
         case MOVECTOR: return !w.v[o.a] && w.v[o.b].has_value();
@@ -143,6 +145,9 @@ static void apply(World &w, const OpDef &o) {
     switch (o.k) {
         case NEW: w.v[o.a].emplace(w.fresh()); break;
         case ADD: *w.v[o.a] << w.fresh(); break;
+        case ADD4:
+            for (int k = 0; k < 4; k++) *w.v[o.a] << w.fresh();
+            break;
         case MERGE: *w.v[o.a] << std::move(*w.v[o.b]); break;
         case ASSIGN: *w.v[o.a] = std::move(*w.v[o.b]); break;
         case MOVECTOR: w.v[o.a].emplace(std::move(*w.v[o.b])); break;
@@ -260,18 +265,20 @@ static uint64_t run_history(seqx::Runner &R, bool coro_mode, const std::vector<i
 }  // namespace
 
 void seqx_run(seqx::Runner &R, const std::string &tier) {
-    if (R.worker >= 2) return;  // worker 0: normal mode, worker 1: coroutine mode
-    if (R.start_idx > 0) {        // restarted behind a fatal case: the search is not resumed (reported as not exhaustive)
+    if (R.start_idx > 0) {  // restarted behind a fatal case: the search is not resumed (reported as not exhaustive)
         seqx::g_wshm->timed_out = 1;
         return;
     }
     seq_warmup();
     bool q = tier == "quick";
-    bool coro_mode = R.worker == 1;
     struct Cfg {
         int nv, maxh;
     };
-    std::vector<Cfg> cfgs = q ? std::vector<Cfg>{{2, 14}} : std::vector<Cfg>{{2, 50}, {3, 16}};
+    // one (mode, configuration) pair per worker process
+    std::vector<Cfg> all = q ? std::vector<Cfg>{{2, 14}} : std::vector<Cfg>{{2, 40}, {3, 12}};
+    if (R.worker >= (int)all.size() * 2) return;
+    bool coro_mode = R.worker % 2 == 1;
+    std::vector<Cfg> cfgs{all[(size_t)R.worker / 2]};
     for (auto &cfg : cfgs) {
         build_ops(cfg.nv);
         std::unordered_map<uint64_t, int> seen;
